@@ -62,3 +62,21 @@ meta("C12",
      "reply into an error; the actor task ends on the deletion signal.",
      ["which select branch tokio's RNG picks at run time (irrelevant once every branch is safe)"],
      ["StreamExt::merge completes only when both halves complete; tonic ends a response stream at the first Err item"])
+
+meta("C02",
+     "The tracker invariant that take_expired's unwrap_unchecked relies on: on every path of every body of impl OutstandingMessageTracker an "
+     "insert/remove/clear on the ack-id map is paired with the same operation on the expiry schedule within the same loop iteration "
+     "(dominance / must-pass-through); modify removes the entry keyed by the deadline read before the overwrite and inserts the one computed "
+     "after it; the acknowledge handler's transitive effect set is confined to the tracker; unknown ids take the not-found arm with no "
+     "mutation; unary, streaming and push acks use one sink.",
+     ["behaviour over concrete histories (follows from the invariant plus single ownership, C03)"],
+     ["HashMap/BTreeSet insert/remove semantics as documented"])
+
+meta("C01",
+     "Message-conservation skeleton on all paths: publish spawns one joined posting task per entry of TopicActor.subscriptions and replies Ok "
+     "only after join_next() returned None; no non-blocking mailbox send and every send result propagated; the post handler appends the "
+     "posted vector unless the subscription is deleted; every pop is followed by recording the delivery as outstanding; every removal from "
+     "the tracker is returned and requeued unless it is the acknowledge path (expiry followed through the actor loop's select); routing: one "
+     "builder of the post request called only from the fan-out, attachment only through create with the same Arc<Topic>.",
+     ["mailbox FIFO order and races of Publish with create/delete (schedules)", "that a pull sent after Publish returned is processed after the post"],
+     ["tokio mpsc is FIFO; JoinSet::join_next returns None only when all tasks finished"])
